@@ -4,6 +4,7 @@
 package main
 
 import (
+	"context"
 	"bytes"
 	"database/sql"
 	"errors"
@@ -44,6 +45,8 @@ type Op struct {
 	Kids []int64 `json:"kids,omitempty"` // ids of nested / appended / replaced / deleted related records
 	Sub  []Op    `json:"sub,omitempty"`  // tx: operations run on the tx handle
 	Fail bool    `json:"fail,omitempty"` // tx: return an error at the end (rollback)
+	Sess string  `json:"sess,omitempty"` // the operation runs on handle.Session(<this option>) / WithContext / Debug (tx: "prepintx" = sub-operations on tx.Session(PrepareStmt))
+	Cond string  `json:"cond,omitempty"` // find: form of the own-rows condition: "" (text) | struct | map | ids | not | or
 }
 
 type DBSpec struct {
@@ -56,6 +59,7 @@ type DBSpec struct {
 	OrBase      bool
 	Shared      *SharedSpec `json:",omitempty"` // a shared Session handle carrying N chain items; shared_find ops add one more
 	NamerDelays [][]int     `json:",omitempty"` // concurrent run: microseconds goroutine g sleeps inside its k-th namer.TableName call (cyclic)
+	NoMigrate   []int `json:",omitempty"` // types of the round that are not migrated (their parse fails)
 	WarmTypes   []int `json:",omitempty"` // cold rounds: these types (pool indices) are used once, serially, before the goroutines start
 	SessionPrep bool `json:",omitempty"` // handle opened WITHOUT Config.PrepareStmt; every op runs on its own db.Session(&gorm.Session{PrepareStmt: true})
 	WatchdogSec int `json:",omitempty"` // 0 = 60: seconds after which a round is declared hung
@@ -155,7 +159,7 @@ func isRelField(f reflect.StructField) bool {
 		return false
 	}
 	if t.Kind() == reflect.Ptr && t.Elem().Kind() == reflect.Struct {
-		return true
+		return t.Elem() != reflect.TypeOf(time.Time{})
 	}
 	if t.Kind() == reflect.Slice && t.Elem().Kind() == reflect.Struct {
 		return true
@@ -182,18 +186,62 @@ func fillExtras(v reflect.Value, id int64) {
 			fv.SetString(fmt.Sprintf("%s%d-%d-%d-%d-%d-%d", strings.ToLower(f.Name[:1]), id, id, id, id, id, id))
 			continue
 		}
-		switch fv.Kind() {
+		if autoFields[f.Name] {
+			continue // filled by gorm (time tracking, hooks)
+		}
+		setExtra(fv, f.Name, id)
+	}
+}
+
+// fields gorm fills itself; compared as set / zero only
+var autoFields = map[string]bool{"CreatedAt": true, "UpdatedAt": true, "UpMs": true, "DeletedAt": true, "Seen": true, "Stamp": true}
+
+// of these, the values that differ from run to run
+var clockFields = map[string]bool{"CreatedAt": true, "UpdatedAt": true, "UpMs": true}
+var clockColumns = map[string]bool{"created_at": true, "updated_at": true, "up_ms": true, "deleted_at": true}
+
+func setExtra(fv reflect.Value, name string, id int64) {
+	switch fv.Kind() {
+	case reflect.String:
+		fv.SetString(fmt.Sprintf("%s%d", strings.ToLower(name), id%7))
+	case reflect.Int, reflect.Int32, reflect.Int64:
+		if name == "Def" && id%2 == 0 {
+			return // the column default applies
+		}
+		fv.SetInt(id%13 + 1)
+	case reflect.Uint, reflect.Uint32, reflect.Uint64:
+		fv.SetUint(uint64(id%11 + 2))
+	case reflect.Bool:
+		fv.SetBool(id%2 == 0)
+	case reflect.Float64, reflect.Float32:
+		fv.SetFloat(float64(id%8)/4 + 0.25)
+	case reflect.Slice:
+		switch fv.Type().Elem().Kind() {
+		case reflect.Uint8:
+			fv.SetBytes([]byte{byte(id%250 + 1), 7, byte(len(name))})
 		case reflect.String:
-			fv.SetString(fmt.Sprintf("%s%d", strings.ToLower(f.Name), id%7))
-		case reflect.Int, reflect.Int32, reflect.Int64:
-			fv.SetInt(id%13 + 1)
-		case reflect.Bool:
-			fv.SetBool(id%2 == 0)
-		case reflect.Float64, reflect.Float32:
-			fv.SetFloat(float64(id%8)/4 + 0.25)
-		case reflect.Slice:
-			if f.Type.Elem().Kind() == reflect.Uint8 {
-				fv.SetBytes([]byte{byte(id%250 + 1), 7, byte(len(f.Name))})
+			fv.Set(reflect.ValueOf([]string{fmt.Sprintf("g%d", id%5), name}))
+		}
+	case reflect.Ptr:
+		if id%2 == 0 {
+			return
+		}
+		p := reflect.New(fv.Type().Elem())
+		setExtra(p.Elem(), name, id)
+		fv.Set(p)
+	case reflect.Struct:
+		switch fv.Type() {
+		case reflect.TypeOf(time.Time{}):
+			fv.Set(reflect.ValueOf(time.Unix(1700000000+id, 0).UTC()))
+		case reflect.TypeOf(sql.NullString{}):
+			fv.Set(reflect.ValueOf(sql.NullString{String: fmt.Sprintf("ns%d", id%9), Valid: id%3 != 0}))
+		case reflect.TypeOf(sql.NullInt64{}):
+			fv.Set(reflect.ValueOf(sql.NullInt64{Int64: id % 17, Valid: id%3 == 0}))
+		default:
+			for i := 0; i < fv.NumField(); i++ {
+				if fv.Field(i).CanSet() {
+					setExtra(fv.Field(i), fv.Type().Field(i).Name, id)
+				}
 			}
 		}
 	}
@@ -232,6 +280,9 @@ func canon(v reflect.Value, depth int) string {
 		return canon(v.Elem(), depth)
 	case reflect.Struct:
 		t := v.Type()
+		if t == reflect.TypeOf(time.Time{}) {
+			return "t:" + v.Interface().(time.Time).UTC().Format(time.RFC3339)
+		}
 		if t == reflect.TypeOf(gorm.DeletedAt{}) {
 			if v.Interface().(gorm.DeletedAt).Valid {
 				return "deleted"
@@ -249,6 +300,14 @@ func canon(v reflect.Value, depth int) string {
 			if isRelField(f) {
 				sb.WriteString(f.Name)
 				sb.WriteByte(':')
+			}
+			if clockFields[f.Name] {
+				if v.Field(i).IsZero() {
+					sb.WriteString("zero")
+				} else {
+					sb.WriteString("set")
+				}
+				continue
 			}
 			sb.WriteString(canon(v.Field(i), depth+1))
 		}
@@ -442,7 +501,11 @@ func execOp(h *gorm.DB, base *gorm.DB, op Op, panics *[]string, pmu *sync.Mutex)
 					subs = append(subs, "nested-tx-not-run")
 					continue
 				}
-				r := execOp(tx, nil, s, panics, pmu)
+				th := tx
+				if op.Sess == "prepintx" {
+					th = tx.Session(&gorm.Session{PrepareStmt: true})
+				}
+				r := execOp(th, nil, s, panics, pmu)
 				subs = append(subs, fmt.Sprintf("%s|%s|%d", r.Err, r.Rows, r.RA))
 			}
 			if op.Fail {
@@ -540,11 +603,17 @@ func runDB(spec DBSpec, dir string, serial bool) (obs DBObs) {
 			return fail("open-migrate", err)
 		}
 		var models []interface{}
+		skip := map[int]bool{}
+		for _, t := range spec.NoMigrate {
+			skip[t] = true
+		}
 		for _, t := range spec.Types {
-			if t < 0 || t >= len(Pool) || Pool[t].Bad {
+			if t < 0 || t >= len(Pool) || (Pool[t].Bad && !skip[t]) {
 				return fail("types", fmt.Errorf("type index %d not usable in a db round", t))
 			}
-			models = append(models, Pool[t].New())
+			if !skip[t] {
+				models = append(models, Pool[t].New())
+			}
 		}
 		if err := mdb.AutoMigrate(models...); err != nil {
 			return fail("migrate", err)
@@ -617,7 +686,7 @@ func runDB(spec DBSpec, dir string, serial bool) (obs DBObs) {
 		prog := spec.Programs[g]
 		rs := make([]OpResult, 0, len(prog))
 		for _, op := range prog {
-			rs = append(rs, execOp(handle(), base, op, &obs.Panics, &pmu))
+			rs = append(rs, execOp(withSess(handle(), op.Sess), base, op, &obs.Panics, &pmu))
 		}
 		obs.Results[g] = rs
 	}
@@ -671,7 +740,7 @@ func runDB(spec DBSpec, dir string, serial bool) (obs DBObs) {
 					if atomic.LoadInt32(&abort) != 0 {
 						return
 					}
-					results[g][i] = execOp(handle(), base, op, &obs.Panics, &pmu)
+					results[g][i] = execOp(withSess(handle(), op.Sess), base, op, &obs.Panics, &pmu)
 					atomic.StoreInt32(&doneOps[g], int32(i+1))
 				}
 			}(g)
@@ -835,8 +904,8 @@ func dumpAll(dsn string) (string, error) {
 			parts := make([]string, len(vals))
 			for i, v := range vals {
 				parts[i] = cell(v)
-				if cols[i] == "deleted_at" && v != nil {
-					parts[i] = "set" // the moment of a soft delete is not an observable
+				if clockColumns[cols[i]] && v != nil {
+					parts[i] = "set" // moments (soft delete, time tracking) are not observables
 				}
 			}
 			sb.WriteString(" (" + strings.Join(parts, ",") + ")")
@@ -1465,6 +1534,105 @@ func genStaggered(r *lib.Rng, g int) DBSpec {
 		} else {
 			spec.NamerDelays = append(spec.NamerDelays, []int{gi * step, 0})
 		}
+	}
+	return spec
+}
+
+// withSess derives the handle an operation runs on from the shared one: every Session option copies
+// the shared Config / Statement in its own way.
+func withSess(h *gorm.DB, sess string) *gorm.DB {
+	switch sess {
+	case "ctx":
+		return h.WithContext(context.Background())
+	case "debug":
+		return h.Debug()
+	case "skipdeftx":
+		return h.Session(&gorm.Session{SkipDefaultTransaction: true})
+	case "batch":
+		return h.Session(&gorm.Session{CreateBatchSize: 2})
+	case "fullsave":
+		return h.Session(&gorm.Session{FullSaveAssociations: true})
+	case "newdb":
+		return h.Session(&gorm.Session{NewDB: true})
+	case "nowfunc":
+		return h.Session(&gorm.Session{NowFunc: func() time.Time { return time.Now() }, Logger: logger.Discard})
+	case "propunscoped":
+		return h.Session(&gorm.Session{PropagateUnscoped: true, AllowGlobalUpdate: true})
+	case "skiphooks":
+		return h.Session(&gorm.Session{SkipHooks: true})
+	case "dryrun":
+		return h.Session(&gorm.Session{DryRun: true})
+	}
+	return h
+}
+
+var sessKinds = []string{"ctx", "debug", "skipdeftx", "batch", "fullsave", "newdb", "nowfunc", "propunscoped", "skiphooks", "dryrun"}
+
+// ownRows: the goroutine's own id range, in the form op.Cond asks for
+func ownRows(h *gorm.DB, op Op) *gorm.DB {
+	switch op.Cond {
+	case "struct": // non-zero fields of a struct of the model type + the range
+		rec := bareRec(op.T, 0)
+		rec.Elem().FieldByName("Name").SetString(op.Name)
+		return h.Where(between, op.Lo, op.Hi).Where(rec.Interface())
+	case "map":
+		return h.Where(between, op.Lo, op.Hi).Where(map[string]interface{}{"name": op.Name})
+	case "ids":
+		return h.Where(between, op.Lo, op.Hi).Where([]int64{op.Lo, op.Lo + 1, op.Lo + 2, op.Lo + 3})
+	case "not":
+		return h.Where(between, op.Lo, op.Hi).Not("name = ?", op.Name)
+	case "or":
+		return h.Where(h.Session(&gorm.Session{NewDB: true}).Where("id BETWEEN ? AND ?", op.Lo, op.Lo+1).Or("id BETWEEN ? AND ?", op.Lo+2, op.Hi))
+	}
+	return h.Where(between, op.Lo, op.Hi)
+}
+
+var condKinds = []string{"struct", "map", "ids", "not", "or"}
+
+// sprinkle: session options, condition forms and Row() on a share of the operations of a generated
+// spec (the same in the concurrent and in the serial run: they are part of the spec)
+func sprinkle(r *lib.Rng, spec *DBSpec) {
+	for g := range spec.Programs {
+		for i := range spec.Programs[g] {
+			op := &spec.Programs[g][i]
+			switch {
+			case op.Kind == "tx":
+				if !spec.PrepareStmt && !spec.SessionPrep && r.Chance(1, 3) {
+					op.Sess = "prepintx"
+				}
+			case r.Chance(1, 4):
+				op.Sess = sessKinds[r.Intn(len(sessKinds))]
+			}
+			if op.Kind == "find" && r.Chance(1, 3) {
+				op.Cond = condKinds[r.Intn(len(condKinds))]
+				if op.Name == "" {
+					op.Name = "n1"
+				}
+			}
+			if op.Kind == "count" && r.Chance(1, 3) {
+				op.Kind = "row_count"
+			}
+		}
+	}
+}
+
+// genBadDB: database operations on a model whose parse FAILS (invalid relation), first used by several
+// goroutines at once next to a good model: every operation on it returns the parse error, alone and
+// together (the cache entry is deleted and re-made by every caller).
+func genBadDB(r *lib.Rng, g int) DBSpec {
+	bp, bk := poolByName["BadP"], poolByName["BadK"]
+	singles := Families["single"]
+	u := singles[r.Intn(len(singles))]
+	spec := DBSpec{G: g, Cold: true, PrepareStmt: r.Bool(), Conns: 4, Types: []int{bp, bk, u}, NoMigrate: []int{bp}, SyncOps: 2}
+	for gi := 0; gi < g; gi++ {
+		base := int64(gi) * idSpan
+		lo, hi := base+1, base+idSpan-1
+		bad := func(k string) Op { return Op{Kind: k, T: bp, ID: base + 1, Name: "b", Val: 1, Lo: lo, Hi: hi} }
+		first := []Op{bad("find"), {Kind: "find", T: bk, Lo: lo, Hi: hi}, bad("create"), {Kind: "create", T: u, ID: base + 1, Name: "u", Val: 3}}[gi%4]
+		prog := []Op{first, bad(lib.Pick(r, []string{"find", "count", "first", "create"})),
+			{Kind: "create", T: bk, ID: base + 5, Name: "k", Val: 2},
+			bad("count"), {Kind: "find", T: bk, Lo: lo, Hi: hi}, {Kind: "find", T: u, Lo: lo, Hi: hi}, bad("first")}
+		spec.Programs = append(spec.Programs, prog)
 	}
 	return spec
 }
